@@ -184,8 +184,8 @@ impl<Front: SocketHandler> RelayProxyProtocol<Front> {
                 }
             };
 
+            // the header stays in the buffer: back_writable forwards it
             self.header_size = Some(read_sz);
-            self.frontend_buffer.consume(sz);
             return SessionResult::Continue;
         }
 
@@ -228,6 +228,11 @@ impl<Front: SocketHandler> RelayProxyProtocol<Front> {
                                 info!("{} proxy protocol sent, upgrading", log_context!(self));
                                 return SessionResult::Upgrade;
                             }
+                        }
+                        Err(e) if e.kind() == std::io::ErrorKind::WouldBlock => {
+                            // not an error: wait for the next writable event
+                            self.backend_readiness.event.remove(Ready::WRITABLE);
+                            break;
                         }
                         Err(e) => {
                             incr!(names::proxy_protocol::ERRORS);
